@@ -129,15 +129,59 @@ def decorate(rng, net, extern=0.3, dh=0.3, coords=False, vectors=False, obscov=0
         net["obs"].append(c)
     if vectors and net["dim"] == 3:
         items = []
-        for a, b in zip(ids, ids[1:]):
+        ids3 = [p for p in ids if "x" in net["points"][p] and "z" in net["points"][p]]
+        for a, b in zip(ids3, ids3[1:]):
             pa, pb = net["points"][a], net["points"][b]
             it = {"from": a, "to": b, "dx": pb["x"] - pa["x"] + rng.gauss(0, 1e-3),
                   "dy": pb["y"] - pa["y"] + rng.gauss(0, 1e-3), "dz": pb["z"] - pa["z"] + rng.gauss(0, 1e-3)}
             items.append(it)
+        if not items:
+            return net
         items = items[:rng.randint(1, len(items))]
         n = 3 * len(items)
         band = rng.randint(0, n - 1)
         net["obs"].append({"kind": "vectors", "items": items, "cov": spd_band(rng, n, band, [4.0] * n), "band": band})
+    return net
+
+
+def add_lower_dim_points(rng, net, n2=2, n1=2, noise=1.0):
+    """mixed-dimension network: to a 3D gen_net network add `n2` plane points (x, y only; observed by horizontal
+    distances and directions from two existing stations) and `n1` height points (z only; levelled from two 3D points).
+    Identifiers are then re-dealt so that 3D, 2D and 1D points interleave in PointID order."""
+    ids3 = [p for p, q in net["points"].items() if "x" in q and "z" in q]
+    stations = [o for o in net["obs"] if o["kind"] == "obs" and o["from"] in ids3]
+    hd = next((o for o in net["obs"] if o["kind"] == "hdiffs"), None)
+    if hd is None:
+        hd = {"kind": "hdiffs", "items": []}
+        net["obs"].append(hd)
+    new = []
+    for k in range(n2):
+        pid = f"Q{k + 1}"
+        q = {"x": rng.uniform(100, 900), "y": rng.uniform(100, 900), "status": "adj", "approx": True}
+        net["points"][pid] = q
+        new.append(pid)
+        for st in rng.sample(stations, min(len(stations), 3)):
+            s = net["points"][st["from"]]
+            b = (gen_net.bearing(s, q) * gen_net.GON - st["orient"] + rng.gauss(0, 10e-4) * noise) % 400.0
+            st["items"].append({"t": "direction", "to": pid, "val": b, "stdev": 10.0})
+            st["items"].append({"t": "distance", "to": pid, "val": gen_net.dist2(s, q) + rng.gauss(0, 5e-3) * noise, "stdev": 5.0})
+    for k in range(n1):
+        pid = f"H{k + 1}"
+        q = {"z": rng.uniform(0, 100), "status": "adj", "approx": True}
+        net["points"][pid] = q
+        new.append(pid)
+        for a in rng.sample(ids3, min(len(ids3), 2)):
+            hd["items"].append({"from": a, "to": pid, "val": q["z"] - net["points"][a]["z"] + rng.gauss(0, 1e-3) * noise,
+                                "stdev": 1.0})
+    allp = list(net["points"])
+    names = sorted(f"M{k + 1:02d}" for k in range(len(allp)))
+    rng.shuffle(allp)
+    if rng.random() < 0.5:       # guaranteed pattern: a 3D point directly followed by a plane point and a height point
+        three = [p for p in allp if p in ids3]
+        two = [p for p in allp if p.startswith("Q")]
+        one = [p for p in allp if p.startswith("H")]
+        allp = three[:1] + two[:1] + one[:1] + three[1:2] + one[1:] + two[1:] + three[2:]
+    rename_ids(net, dict(zip(allp, names)))
     return net
 
 
